@@ -160,9 +160,12 @@ class GroupOutput(PartFlowController):
             raise RuntimeError(f'Part {part.name} is trying to exit Group {self._group.name}'
                                +f' but does not contain information on which GroupPath to use.')
 
+        # Leave the Group before passing the Part on: the downstream may
+        # be the output of an enclosing Group (nested Groups).
+        part._group_pathing.pop()
         did_pass = last_entered_group._pass_part_downstream(part)
-        if did_pass:
-            part._group_pathing.pop()
+        if not did_pass:
+            part._group_pathing.append(last_entered_group)
         return did_pass
 
     def _add_downstream(self, downstream):
